@@ -58,7 +58,8 @@ type cmafIngester struct {
 	asset          *asset
 	repsData       []cmafRepData
 	nextSegTrigger chan struct{}
-	mu             sync.Mutex // protects state and report
+	done           chan struct{} // closed when the session has ended
+	mu             sync.Mutex    // protects state and report
 	state          ingesterState
 	report         []string
 }
@@ -225,6 +226,7 @@ func (cm *cmafIngesterMgr) NewCmafIngester(req CmafIngesterSetup) (nr uint64, er
 		repsData:       repsData,
 		state:          ingesterStateNotStarted,
 		nextSegTrigger: make(chan struct{}),
+		done:           make(chan struct{}),
 	}
 	if c.dur != nil {
 		c.nrSegsToSend = m.Ptr(*c.dur * 1000 / asset.SegmentDurMS)
@@ -274,6 +276,7 @@ func (c *cmafIngester) start(ctx context.Context) {
 
 	defer func() {
 		c.setState(ingesterStateStopped)
+		close(c.done)
 	}()
 
 	// Finally we should send off the init segments
@@ -491,8 +494,14 @@ func (c *cmafIngester) start(ctx context.Context) {
 	//
 }
 
-func (c *cmafIngester) triggerNextSegment() {
-	c.nextSegTrigger <- struct{}{}
+// triggerNextSegment makes the session send its next segment. It returns false if the session has ended.
+func (c *cmafIngester) triggerNextSegment() bool {
+	select {
+	case c.nextSegTrigger <- struct{}{}:
+		return true
+	case <-c.done:
+		return false
+	}
 }
 
 func (c *cmafIngester) dest() string {
